@@ -7,7 +7,7 @@ import numpy as np
 
 from vf import refeval as rf
 
-URDF_DIR = "/repo/tests/test_helpers"
+URDF_DIR = os.environ.get("VF_REPO", "/repo") + "/tests/test_helpers"
 URDFS = ["irb_2400.urdf", "ur5.urdf", "puma_560.urdf", "ur_description/ur10.urdf", "ur_description/ur5.urdf"]
 PI = math.pi
 
